@@ -132,6 +132,16 @@ CHECKS = {
         note='Finite-choice throughout (leverage about 1): the solver contributes the unbounded pattern-equivalence '
              'lemmas, the histories are enumerated. Trusted: z3, rx/translate.py, the three-line content model.',
         design='3 C14'),
+    'C16': dict(
+        text='Selectors are assembled from a derivation of the CSS3 selector grammar chosen by solver variables (one and '
+             'two compounds; every part kind alone and all pairs - triples in the thorough tier; four spellings of every '
+             'pseudo / :not name; five gap fillers around the four combinators) with the expected specificity accumulated '
+             'by the generator; the real Selector must report that specificity, serialise to a selector that reparses to '
+             'the same sequence, keep the sequence of simple selectors and combinators whatever the gaps, and keep its '
+             'specificity when attached to a sheet. SelectorList: order, whole-list rejection, append-moves-to-end.',
+        note='Finite-choice: solver-driven exhaustive enumeration within the stated bound (leverage about 1). Trusted: '
+             'z3, the counting menus in harness/c16.py.',
+        design='3 C16'),
     'C17': dict(
         text='Step harness on the real MediaList / MediaQuery code: pre-state built from up to K menu items with every '
              'letter of the media types in symbolic case (solver variables) and an optional leading comment, stand-alone '
